@@ -2,6 +2,7 @@ import Driver.Util
 import Driver.Vec
 import Driver.Queue
 import Driver.PubSub
+import Driver.Channel
 import Driver.Lifecycle
 import Driver.ServiceLife
 import Driver.RelPtr
@@ -46,6 +47,7 @@ def components : List (String × Comp) := [
   ("vec", VecD.comp),
   ("queue", QueueD.comp),
   ("pubsub", PubSubD.comp),
+  ("zcc", ChannelD.comp),
   ("lifecycle", LifecycleD.comp),
   ("svclife", ServiceLifeD.comp),
   ("relptr", RelPtrD.comp),
